@@ -249,4 +249,115 @@ theorem appendGo_ok {P : Params} (hP : P.ans = serialAns) (hc : CodecOk P.codec)
                 omega)) hm
           exact ⟨s', g', W', em, ha, hfa, hfront, hinv', hfe', hgfe, hgfin, hil, hmb, hcne'⟩
 
+/-- `append` adds to the file size -/
+theorem Back.addSize {P : Params} {s : Proc} {g : Ghost} {F : FSt} {W : WSt} (h : Back P s g F W) (id n : Nat)
+    (hid : id < s.w.inodes.length) :
+    Back P { s with w := modInode s.w (some id) (InoEff.size n).app }
+      { g with fe := g.fe ++ [⟨id, .size n⟩], h := g.h ++ [⟨id, .size n⟩] } F W := by
+  have hlen : (modInode s.w (some id) (InoEff.size n).app).inodes.length = s.w.inodes.length := modInode_length _ _ _
+  have e4 : (modInode s.w (some id) (InoEff.size n).app).inodes = applyEffs s.w.inodes (mkEff (some id) (.size n)) := by rw [modInode_eff]
+  constructor
+  · exact h.maxBacklog
+  · exact h.pool
+  · exact h.pend
+  · exact h.worked
+  · exact h.deqLe
+  · exact h.queue
+  · exact h.sorted
+  · simp only [hlen]; exact h.itemsOK
+  · exact h.fprotoOK
+  · simp only [hlen]; exact h.finv
+  · exact h.fragBlock
+  · exact h.fragHt
+  · exact h.ioSeq
+  · exact h.wrun
+  · exact h.winv
+  · exact h.wr
+  · exact h.calls
+  · exact h.fragTbl
+  · show (modInode s.w (some id) (InoEff.size n).app).inodes =
+      applyEffs (List.replicate (modInode s.w (some id) (InoEff.size n).app).inodes.length {}) (g.h ++ [⟨id, .size n⟩])
+    rw [hlen, e4, applyEffs_append, ← h.inodes]; rfl
+  · exact h.mergeH.snoc_left _
+  · exact h.mergeM
+  · intro e he
+    simp only [hlen]
+    rcases List.mem_append.mp he with he | he
+    · exact h.feIds e he
+    · rw [List.mem_singleton] at he; subst he; exact ⟨hid, n, rfl⟩
+  · exact h.inFlSub
+  · exact h.inFlNodup
+  · exact h.inFlAll
+  · exact h.inFlNone
+  · exact h.cache
+
+theorem fe_inode {s : Proc} : s.fe.inode = s.inode := rfl
+theorem fe_beginCalled {s : Proc} : s.fe.beginCalled = s.beginCalled := rfl
+theorem fe_blkCurrent {s : Proc} : s.fe.blkCurrent = s.blkCurrent := rfl
+theorem fe_blkFlags {s : Proc} : s.fe.blkFlags = s.blkFlags := rfl
+
+/-- `sqfs_block_processor_append` with a non-empty buffer -/
+theorem append_ok {P : Params} (hP : P.ans = serialAns) (hc : CodecOk P.codec) (hB : P.B < 2 ^ 24) (hBpos : 0 < P.B)
+    {s : Proc} {g : Ghost} {W : WSt} (h : PInv P s g 0 W) (hfe : FrontInv P.B s.fe g.front s.w.inodes.length)
+    (hbc : s.beginCalled = true) (hfin : g.fin = false) (data : Bytes) (hne : data ≠ []) :
+    ∃ s' g' W' em id, append P s data = .ok s' ∧ feAppend P.B s.fe data = some (s'.fe, em) ∧ s.inode = some id ∧
+      id + 1 = s.w.inodes.length ∧
+      g'.front = g.front ++ em ∧ g'.fe = g.fe ++ [⟨id, .size data.length⟩] ∧ PInv P s' g' 0 W' ∧
+      FrontInv P.B s'.fe g'.front s'.w.inodes.length ∧ g'.fin = false ∧
+      s'.w.inodes.length = s.w.inodes.length ∧ s'.maxBacklog = s.maxBacklog ∧
+      (∀ c, s'.blkCurrent = some c → c.data ≠ []) := by
+  obtain ⟨id, hbz⟩ := hfe.busy hbc
+  have hino : s.inode = some id := hbz.ino
+  have hidn : id < s.w.inodes.length := by have := hbz.last; omega
+  have hlen : (modInode s.w s.inode (fun i => { i with size := i.size + data.length })).inodes.length = s.w.inodes.length :=
+    modInode_length _ _ _
+  have hb0 := h.back.addSize id data.length hidn
+  have e1 : (fun (i : Inode) => ({ i with size := i.size + data.length } : Inode)) = (InoEff.size data.length).app := rfl
+  have h0 : PInv P { s with w := modInode s.w s.inode (fun i => { i with size := i.size + data.length }) }
+      { g with fe := g.fe ++ [⟨id, .size data.length⟩], h := g.h ++ [⟨id, .size data.length⟩] } 0 W := by
+    have e2 : modInode s.w s.inode (fun i => { i with size := i.size + data.length }) =
+        modInode s.w (some id) (InoEff.size data.length).app := by rw [hino]; rfl
+    rw [e2]
+    refine PInv.intro (g.F P) (Ghost.F_congr P rfl rfl) hb0 ?_ h.finNoPend
+    have := h.acct
+    unfold Acct at *
+    exact this
+  have hfe0 : FrontInv P.B ({ s with w := modInode s.w s.inode (fun i => { i with size := i.size + data.length }) } : Proc).fe g.front
+      ({ s with w := modInode s.w s.inode (fun i => { i with size := i.size + data.length }) } : Proc).w.inodes.length := by
+    show FrontInv P.B s.fe g.front _
+    rw [hlen]; exact hfe
+  have hm : 3 * data.length + curRank s.blkCurrent P.B < 3 * data.length + 3 := by
+    have : curRank s.blkCurrent P.B ≤ 2 := by unfold curRank; split <;> (try split) <;> omega
+    omega
+  obtain ⟨s', g', W', em, ha, hfa, hfront, hinv', hfe', hgfe, hgfin, hil, hmb, hcne'⟩ :=
+    appendGo_ok hP hc hB hBpos _ _ data _ W h0 hfe0 hbc hfin (Or.inl hne) (Or.inl hne) hm
+  refine ⟨s', g', W', em, id, ?_, hfa, hino, hbz.last, hfront, hgfe, hinv', hfe', hgfin, ?_, hmb, hcne'⟩
+  · unfold append
+    rw [if_neg (by simp [hbc])]
+    exact ha
+  · rw [hil]; exact hlen
+
+/-- `add_sentinel_block` -/
+theorem addSentinel_ok {P : Params} (hP : P.ans = serialAns) (hc : CodecOk P.codec) (hB : P.B < 2 ^ 24)
+    {s : Proc} {g : Ghost} {W : WSt} (h : PInv P s g 0 W) (hfin : g.fin = false)
+    (hx : ItemOK P.B s.w.inodes.length (feSentinel s.fe)) (hfp : fproto false (g.front ++ [feSentinel s.fe]) = true) :
+    ∃ s' g' W', addSentinelBlock P s = .ok s' ∧ PInv P s' g' 0 W' ∧ s'.fe = s.fe ∧ g'.front = g.front ++ [feSentinel s.fe] ∧
+      g'.fe = g.fe ∧ g'.fin = false ∧ s'.w.inodes.length = s.w.inodes.length ∧ s'.maxBacklog = s.maxBacklog := by
+  obtain ⟨s1, g1, W1, hg, h1, fr1⟩ := getNewBlock_ok hP hc hB h
+  have hsent : ({ inode := s1.inode, flags := s1.blkFlags ||| blkLastBlock } : Blk) = feSentinel s.fe := by
+    have e := fr1.fe
+    simp only [Proc.fe, Front.mk.injEq] at e
+    obtain ⟨_, e2, e3, _, _⟩ := e
+    simp only [feSentinel, Proc.fe, e2, e3]
+  have hfin1 : g1.fin = false := by rw [fr1.fin]; exact hfin
+  have hacct : Acct s1 g1 (boolNat s1.blkCurrent.isSome + 0 + 1) := h1.acct
+  obtain ⟨s', he, hfe', hil, hmb, hinv'⟩ := PInv.submit hP (held := 0) (feSentinel s.fe) h1.back hacct
+    (by rw [fr1.inodes]; exact hx) (by rw [fr1.front]; exact hfp) hfin1
+  refine ⟨s', _, W1, ?_, hinv', hfe'.trans fr1.fe, ?_, fr1.gfe, hfin1, hil.trans fr1.inodes, hmb.trans fr1.maxBacklog⟩
+  · unfold addSentinelBlock
+    rw [hg]
+    simp only
+    rw [hsent]; exact he
+  · simp only [fr1.front]
+
 end Sqfs.BlockProc
